@@ -11,7 +11,7 @@ import json
 import vkit
 from checks import backend_common as bc
 
-ACTS = ("add", "del", "close", "wait", "env")
+ACTS = ("add", "del", "close", "wait", "env", "reinit")
 CONFIGS = [(b, s) for b in bc.BACKENDS for s in (0, 1)]          # the 8 baseline configurations
 # corpus -> generating backend, backends it is replayed on
 CORPORA = {"common": ("select", ("epoll", "epollcl", "poll", "select")),
@@ -205,7 +205,7 @@ def run(tier, seed):
             sub = {(be, s): runs[(corpus, be, s)] for be in CORPORA[corpus][1] for s in (0, 1)}
             chk.cov["agreement_comparisons"] = chk.cov.get("agreement_comparisons", 0) + agreement(chk, corpus, hists[corpus], sub)
 
-    missing = [o for o in ("add", "add:et", "del", "close", "reopen", "wait", "pw", "drain", "fill", "pdrain", "pshut", "pclose")
+    missing = [o for o in ("add", "add:et", "del", "close", "reopen", "reinit", "wait", "pw", "drain", "fill", "pdrain", "pshut", "pclose")
                if not ops.get(o)]
     if missing:
         raise vkit.InfraError("vacuous scenario corpus: ops never generated: %s" % missing)
